@@ -111,8 +111,12 @@ Print Assumptions C04_remove_ind_former_witness_ok.
    involved, size, flops cached and "index in legs => index in involved"), the recipe getters
    get_can_dot / get_inds / get_tensordot_axes / get_tensordot_perm / get_einsum_eq,
    reset_contraction_indices, _reset_contraction_recipes, sort_contraction_indices (all priorities),
-   and total_flops / total_write / max_size when they do not have to recompute.  NOT yet proved:
-   restore_ind, and total_flops / total_write / max_size when they recompute (same argument as
+   total_flops / total_write / max_size when they do not have to recompute, and (round 4)
+   restore_ind (precondition rs_pre: the index is removed and the removed indices are distinct, the
+   three totals are tracked, dimension > 0, output indices occur on inputs, the dfs traversal
+   enumerates `children` with children before parents, every `children` key is the sorted union of
+   its two children and has an info entry, every internal info node is a `children` key).  NOT yet
+   proved: total_flops / total_write / max_size when they recompute (same argument as
    contract_stats).  (The next lines are from round 2.)  Previously open: remove_ind, restore_ind, the recipe
    getters and sort/reset of contraction indices (these do not touch cost fields but are not
    covered by the statement).  Hence the `_partial` suffix. *)
@@ -154,7 +158,7 @@ Example C04_trace_nonvacuous :
   pre_trace ex_net (prim_pre ex_net) tr (init_state ex_net) /\ 2 <= NN ex_net /\ NoDup (output ex_net).
 Proof.
   cbn zeta. split; [|split; [vm_compute; lia|repeat constructor; cbn; intuition lia]].
-  cbn [pre_trace prim_pre prim_pre1 prim_pre0].
+  cbn [pre_trace prim_pre prim_preN prim_pre1 prim_pre0].
   repeat match goal with
   | |- _ /\ _ => split
   | |- pair_pre _ _ _ _ _ _ _ => unfold pair_pre
@@ -226,9 +230,46 @@ Print Assumptions C04_checked_trace_from_fresh_tree.
 Example C04_checked_trace_nonvacuous :
   let tr := [PPair [0] [1] None None None; PPair [0;1] [2] None None None; PStats false;
              PRemoveNode [0;1;2]; PPair [0;1] [2] None (Some 8%Z) (Some 4%Z);
-             PRemoveInd 0 None; PSortInds PrFlops true true false; PGet GEq [0;1;2]; PRemoveInd 2 (Some 1)] in
+             PRemoveInd 0 None; PSortInds PrFlops true true false; PGet GEq [0;1;2]; PRemoveInd 2 (Some 1);
+             PRestoreInd 0; PRestoreInd 2; PRemoveInd 1 None; PRestoreInd 1] in
   pre_trace_b ex_net tr (init_state ex_net) = true /\
   cost_inv_b ex_net (run ex_net tr (init_state ex_net)) = true /\
   prim_pre_b ex_net (PPair [0;1] [2] None (Some 8%Z) (Some 5%Z))
      (run ex_net [PPair [0] [1] None None None] (init_state ex_net)) = false.
+Proof. vm_compute. repeat split; reflexivity. Qed.
+
+(* ---- round 4: restore_ind is covered; the second sentence of C04 for certified histories ----- *)
+(* two histories from a fresh tree that both pass the boolean precondition check (they may contain
+   remove_ind and restore_ind in any order) and end with the same tree (up to the order of the two
+   children of a node and of the dict entries -- restore_ind re-inserts the nodes it re-creates) and the
+   same multiset of sliced / projected indices report the same per-node figures, the same tracked
+   _flops / _write and the same multiplicity.  No invariant hypothesis on either end state remains.
+   ("same tree" and "same indices" are the premises of the property's sentence; that a suffix made
+   only of remove_ind / restore_ind leaves the tree the same up to that order is observed by the
+   trace replay, not derived here.) *)
+Theorem C04_slice_unslice_roundtrip : forall n, 2 <= NN n -> NoDup (output n) ->
+  forall tr1 tr2, pre_trace_b n tr1 (init_state n) = true -> pre_trace_b n tr2 (init_state n) = true ->
+  let s1 := run n tr1 (init_state n) in let s2 := run n tr2 (init_state n) in
+  ch_equiv (children s1) (children s2) -> Permutation (sliced s1) (sliced s2) ->
+  (forall nd i1 i2, nget nd (info s1) = Some i1 -> nget nd (info s2) = Some i2 ->
+     (forall z1 z2, i_size i1 = Some z1 -> i_size i2 = Some z2 -> z1 = z2) /\
+     (forall z1 z2, i_flops i1 = Some z1 -> i_flops i2 = Some z2 -> z1 = z2) /\
+     (forall l1 l2, i_legs i1 = Some l1 -> i_legs i2 = Some l2 ->
+        size_of (szd n) (lkeys l1) = size_of (szd n) (lkeys l2) /\ forall j, In j (lkeys l1) <-> In j (lkeys l2))) /\
+  ((forall p, In p (nkeys (children s1)) -> nget p (info s1) <> None /\ nget p (info s2) <> None) ->
+   (trk_flops s1 = true -> trk_flops s2 = true -> flops_ s1 = flops_ s2) /\
+   (trk_write s1 = true -> trk_write s2 = true -> write_ s1 = write_ s2) /\
+   mult s1 = mult s2).
+Proof. exact roundtrip_checked. Qed.
+Print Assumptions C04_slice_unslice_roundtrip.
+
+(* non-vacuity of the round trip: slice a, project c, restore c, restore a (other order) on the built
+   tree: the boolean checks pass, the trees agree up to order, the sliced sets are equal, and the totals
+   and multiplicity are those of the unsliced tree *)
+Example C04_roundtrip_nonvacuous :
+  let build := [PPair [0] [1] None None None; PPair [0;1] [2] None None None; PStats false] in
+  let tr2 := build ++ [PRemoveInd 0 None; PRemoveInd 2 (Some 1); PRestoreInd 0; PRestoreInd 2] in
+  let s1 := run ex_net build (init_state ex_net) in let s2 := run ex_net tr2 (init_state ex_net) in
+  pre_trace_b ex_net build (init_state ex_net) = true /\ pre_trace_b ex_net tr2 (init_state ex_net) = true /\
+  sliced s1 = sliced s2 /\ (flops_ s1, write_ s1, mult s1) = (flops_ s2, write_ s2, mult s2).
 Proof. vm_compute. repeat split; reflexivity. Qed.
